@@ -255,7 +255,9 @@ pub fn crash_cases(tier: &str) -> Vec<SchedCase>
 {
     let all = schedeng::success_cases("thorough");
     let quick = ["single/fresh/build", "chain2/fresh/build", "chain2/built+edit/build", "chain2/cleaned/build", "chain2/built/clean",
-        "twins/cleaned/build", "multi/built+edit2/build", "diamond/reverted/build", "multi/built/clean"];
+        "twins/cleaned/build", "multi/built+edit2/build", "diamond/reverted/build", "multi/built/clean",
+        "diamond/cleaned/build", "twins/reverted/build", "fanout/cleaned/build", "twinsmulti/cleaned/build",
+        "chain3/built+edit/build", "bothtargets/built+edit2/build", "multi/cleaned/build", "twocomp/goal-b/build", "twins/built/clean"];
     all.into_iter().filter(|c| tier == "thorough" || quick.contains(&c.name.as_str())).collect()
 }
 
@@ -275,7 +277,8 @@ pub fn run_crash(rep: &mut Report, tier: &str, id: &str)
         let prep = match schedeng::prepare(&case)
         {
             Ok(p) => p,
-            Err(e) => { rep.machinery(format!("case {}: pre-history failed: {}", case.name, e)); continue; },
+            // ruler failed on the serial pre-history: C05's business, this engine skips the case and says so
+            Err(e) => { exhaustive = false; rep.push_sample(json!({"case_skipped_because_its_pre_history_failed": case.name, "failure": crate::cli::first_line(&e)})); continue; },
         };
         // 1. collect crash states under: serial + DPOR representatives + all schedules with <= 1 preemption
         let mut snaps: std::collections::HashMap<[u8; 16], Snap> = Default::default();
@@ -283,7 +286,7 @@ pub fn run_crash(rep: &mut Report, tier: &str, id: &str)
         let mut seen = 0u64;
         let mut phases_json = vec![];
         let small = case.name.starts_with("single") || case.name.starts_with("chain2") || case.name.starts_with("twins/");
-        let mut phases: Vec<(&str, bool, Option<usize>, f64)> = vec![("serial+preemption-bound-0", false, Some(0), if thorough { 20.0 } else { 1.0 }), ("dpor-unbounded", true, None, if thorough { 30.0 } else { 2.0 })];
+        let mut phases: Vec<(&str, bool, Option<usize>, f64)> = vec![("serial+preemption-bound-0", false, Some(0), if thorough { 20.0 } else { 5.0 }), ("dpor-unbounded", true, None, if thorough { 30.0 } else { 2.0 })];
         if small || thorough
         {
             phases.push(("preemption-bound-1", false, Some(1), if thorough { 30.0 } else { 1.5 }));
@@ -357,6 +360,8 @@ pub fn run_crash(rep: &mut Report, tier: &str, id: &str)
                     let double_count = double_count.clone();
                     Some(Job::serial(Box::new(move ||
                     {
+                        let _w = crate::watch::item(|| (format!("recovery after case {} was killed right after [{}]", case.name, snaps[i].desc),
+                            json!({"engine": "crash", "case": case.name, "crash_desc": snaps[i].desc, "what": ""})));
                         let fs = judge(&case, &prep, &snaps[i], &legit, double);
                         let n = DOUBLE.with(|d| d.replace(0));
                         double_count.fetch_add(n as usize, Ordering::SeqCst);
